@@ -506,6 +506,17 @@ class Shadow:
         self.count('reopens')
         self.compare('after-reopen')
 
+    def op_cache_pressure(self):
+        """mid-transaction cache garbage collection / minimisation: unmodified objects (also new ones a savepoint has stored)
+        become ghosts; nothing observable may change"""
+        if self.rnd.random() < 0.5:
+            self.conn.cacheMinimize()
+        else:
+            self.conn.cacheGC()
+        self.trace.append('cache-pressure')
+        self.count('cache_pressure_ops')
+        self.compare('after-cache-pressure')
+
     def op_refused_write(self):
         """a write the connection cannot take because it cannot join a transaction (made through a kept reference while the
         connection is closed, or - explicit transaction manager - before begin()): it raises, changes nothing, and the
